@@ -232,7 +232,11 @@ func (r *runner) apply(l *live, o Op, h *History, check bool) (applicable bool) 
 		case "tag":
 			t.Refs = []hx.RefOp{{Name: o.Name, Kind: 2, Val: fmt.Sprintf("t%d", l.step), Peeled: fmt.Sprintf("p%d", l.step)}}
 		case "log":
-			t.Logs = []hx.LogOp{{Name: o.Name, Msg: fmt.Sprintf("step %d", l.step), Time: uint64(1000 + l.step), Old: "o", New: fmt.Sprintf("n%d", l.step)}}
+			msg := fmt.Sprintf("step %d", l.step)
+			if l.cfg.ExactLogMessage {
+				msg += "\n second line" // kept verbatim: embedded newline, no trailing newline
+			}
+			t.Logs = []hx.LogOp{{Name: o.Name, Msg: msg, Time: uint64(1000 + l.step), Old: "o", New: fmt.Sprintf("n%d", l.step)}}
 			l.tomb = true
 		case "dellog":
 			u, ok := newestLog(l.model, o.Name)
@@ -602,6 +606,9 @@ func RunC07(prop, tier string, wi, wn int, sink Sink) {
 		r.seen = map[string]int{}
 		r.explore(&History{Cfg: cn, Auto: true}, bAuto, wi, wn, &d0)
 		if quick && cn == "default" {
+			// exact log messages at a reduced bound (the full bound is in the thorough tier)
+			r.seen = map[string]int{}
+			r.explore(&History{Cfg: "exact"}, bounds{txns: 3, comps: 1}, wi, wn, &d0)
 			// one deeper slice: 4 transactions then a single compaction
 			r.seen = map[string]int{}
 			r.explore(&History{Cfg: cn}, bounds{txns: 4, comps: 1}, wi, wn, &d0)
